@@ -41,8 +41,22 @@ class Compiled:
 
 
 def compile_capture(src, *, optimize=True, power_pole_type=None, use_json=True, source_name="<string>",
-                    max_layout_retries=3):
-    """compile_dsl_source with capture of planner / plan / IR / blueprint object."""
+                    max_layout_retries=3, _attempts=3):
+    """compile_dsl_source with capture of planner / plan / IR / blueprint object.
+
+    The CP-SAT layout step works under wall-clock limits and gives up ("Failed to find feasible layout") when the
+    machine is overloaded; that refusal says nothing about the program, so it is retried (up to 3 attempts)."""
+    cap = _compile_capture_once(src, optimize=optimize, power_pole_type=power_pole_type, use_json=use_json,
+                                source_name=source_name, max_layout_retries=max_layout_retries)
+    while not cap.ok and _attempts > 1 and "Failed to find feasible layout" in (cap.error or ""):
+        _attempts -= 1
+        cap = _compile_capture_once(src, optimize=optimize, power_pole_type=power_pole_type, use_json=use_json,
+                                    source_name=source_name, max_layout_retries=max_layout_retries)
+    return cap
+
+
+def _compile_capture_once(src, *, optimize=True, power_pole_type=None, use_json=True, source_name="<string>",
+                          max_layout_retries=3):
     ensure_repo()
     import dsl_compiler.cli as cli
     from dsl_compiler.src.emission.emitter import BlueprintEmitter
